@@ -48,7 +48,11 @@ using mk_fn = Message *(*)(bool);
 static mk_fn l3_maker(int w)
 {
    switch (w) { case 0: return &Minst::_gen::_make<MINI::Heartbeat>; case 1: return &Minst::_gen::_make<MINI::Order>;
-                case 2: return &Minst::_gen::_make<MINI::header, bool>; case 3: return &Minst::_gen::_make<MINI::trailer, bool>; }
+                case 2: return &Minst::_gen::_make<MINI::header, bool>; case 3: return &Minst::_gen::_make<MINI::trailer, bool>;
+#ifdef VF_L3_MINI2   // schemas/mini2.xml: third message type List (nested group); slot numbers 0..3 keep their meaning, List is 4
+                case 4: return &Minst::_gen::_make<MINI::List>;
+#endif
+   }
    return nullptr;
 }
 int vf_fn_which(const msg_create *f)
@@ -56,31 +60,54 @@ int vf_fn_which(const msg_create *f)
    const F8MetaCntx& c(MINI::ctx());
    if (f == &c._mk_hdr) return 2;
    if (f == &c._mk_trl) return 3;
+#ifdef VF_L3_MINI2   // message table of mini2: "0", "D", "E", "header", "trailer"
+   for (unsigned i = 0; i < c._bme.size(); ++i) if (f == &c._bme.at(i)->_value._create._do) return i < 2 ? int(i) : i == 2 ? 4 : int(i) - 1;
+#else
    for (unsigned i = 0; i < c._bme.size(); ++i) if (f == &c._bme.at(i)->_value._create._do) return int(i);
+#endif
    return -1;
 }
 bool vf_fn_check(const msg_create *f, int w) { return *reinterpret_cast<const mk_fn *>(&f->_M_functor) == l3_maker(w); }
 Message *vf_fn_make(int w, bool deep)
 {
    switch (w) { case 0: return Minst::_gen::_make<MINI::Heartbeat>(deep); case 1: return Minst::_gen::_make<MINI::Order>(deep);
-                case 2: return Minst::_gen::_make<MINI::header, bool>(deep); case 3: return Minst::_gen::_make<MINI::trailer, bool>(deep); }
+                case 2: return Minst::_gen::_make<MINI::header, bool>(deep); case 3: return Minst::_gen::_make<MINI::trailer, bool>(deep);
+#ifdef VF_L3_MINI2
+                case 4: return Minst::_gen::_make<MINI::List>(deep);
+#endif
+   }
    return nullptr;
 }
 // ---- construction through the public API
+#ifdef VF_L3_MINI2
+Message *vf_new_msg(int which, bool deep)
+{
+   return which == 0 ? static_cast<Message *>(new MINI::Heartbeat(deep)) : which == 2 ? static_cast<Message *>(new MINI::List(deep)) : static_cast<Message *>(new MINI::Order(deep));
+}
+#else
 Message *vf_new_msg(int which, bool deep) { return which == 0 ? static_cast<Message *>(new MINI::Heartbeat(deep)) : static_cast<Message *>(new MINI::Order(deep)); }
+#endif
 MessageBase *vf_header(Message *m) { return m->Header(); }
 MessageBase *vf_trailer(Message *m) { return m->Trailer(); }
 BaseField *vf_mk_int(unsigned tag, int v)
 {
    switch (tag) { case 34: return new MINI::MsgSeqNum(v); case 38: return new MINI::Qty(v); case 36: return new MINI::LineNo(v);
-                  case 33: return new MINI::NoLines(v); case 61: return new MINI::RawDataLength(v); }
+                  case 33: return new MINI::NoLines(v); case 61: return new MINI::RawDataLength(v);
+#ifdef VF_L3_MINI2
+                  case 13: return new MINI::NoOrders(v); case 14: return new MINI::OrdNo(v); case 16: return new MINI::NoAllocs(v); case 17: return new MINI::AllocNo(v);
+#endif
+   }
    return nullptr;
 }
 BaseField *vf_mk_str(unsigned tag, const char *d, unsigned n)
 {
    const f8String s(d, n);
    switch (tag) { case 49: return new MINI::SenderCompID(s); case 56: return new MINI::TargetCompID(s); case 11: return new MINI::ClOrdID(s);
-                  case 58: return new MINI::Text(s); case 62: return new MINI::RawData(s); case 63: return new MINI::TestReqID(s); }
+                  case 58: return new MINI::Text(s); case 62: return new MINI::RawData(s); case 63: return new MINI::TestReqID(s);
+#ifdef VF_L3_MINI2
+                  case 12: return new MINI::ListID(s); case 15: return new MINI::OrdText(s); case 18: return new MINI::AllocText(s);
+#endif
+   }
    return nullptr;
 }
 BaseField *vf_mk_char(unsigned tag, char c) { return tag == 54 ? new MINI::Side(c) : nullptr; }
@@ -95,6 +122,13 @@ BaseField *vf_mk_float(unsigned tag, double v, int prec) { return tag == 44 ? ne
 bool vf_add(MessageBase *to, BaseField *f) { return to->add_field(f); }
 GroupBase *vf_find_group(MessageBase *m, unsigned short fnum) { return m->find_group(fnum); }
 MessageBase *vf_group_new(GroupBase *g) { return static_cast<MINI::Order::NoLines *>(g)->MINI::Order::NoLines::create_group(true); }
+#ifdef VF_L3_MINI2   // deep-constructed element of List::NoOrders (fnum 13; owns an empty NoAllocs instance) or of List::NoOrders::NoAllocs (fnum 16)
+MessageBase *vf_group_new2(GroupBase *g, unsigned short fnum)
+{
+   return fnum == 13 ? static_cast<MINI::List::NoOrders *>(g)->MINI::List::NoOrders::create_group(true)
+                     : static_cast<MINI::List::NoOrders::NoAllocs *>(g)->MINI::List::NoOrders::NoAllocs::create_group(true);
+}
+#endif
 void vf_group_add(GroupBase *g, MessageBase *el) { *g += el; }
 unsigned vf_group_size(const GroupBase *g) { return unsigned(g->size()); }
 MessageBase *vf_group_el(const GroupBase *g, unsigned i) { return g->get_element(i); }
